@@ -56,6 +56,15 @@ pub struct Sched {
     pub seq: AtomicU64,
 }
 
+thread_local! {
+    static TICKS: std::cell::RefCell<Vec<u64>> = std::cell::RefCell::new(vec![]);
+}
+
+/// the logical clock values the calling thread drew since the last call of this function
+pub fn take_ticks() -> Vec<u64> {
+    TICKS.with(|v| std::mem::take(&mut *v.borrow_mut()))
+}
+
 pub struct ThreadHooks {
     pub sched: Arc<Sched>,
     pub tid: usize,
@@ -67,7 +76,12 @@ impl Hooks for ThreadHooks {
         self.inner.data_dir()
     }
     fn now_nanos(&self) -> Option<u64> {
-        self.inner.now_nanos()
+        let t = self.inner.now_nanos();
+        if let Some(t) = t {
+            // the logical clock values this thread drew: when a command "was issued" for the code under test
+            TICKS.with(|v| v.borrow_mut().push(t));
+        }
+        t
     }
     fn order_keys(&self, keys: &mut Vec<(String, Value)>) {
         self.inner.order_keys(keys)
